@@ -31,11 +31,13 @@ property exit 1{note}.
 for pid in sorted(by):
     L.append(f"| {pid} | " + ", ".join(n.split("-", 1)[1] for n in by[pid]) + " |")
 L.append(f"""
-### 12.2 Independently written breaking changes (`seeded/<property>-<a|b|c|d>/`)
+### 12.2 Independently written breaking changes (`seeded/<property>-<a..f>/`)
 
-{len(metas)} changes were written by fresh sub-agents in two rounds (a, b: first round; c, d: second round, where each
+{len(metas)} changes were written by fresh sub-agents in three rounds (a, b: first round; c, d: second round, where each
 agent was additionally told in one line each what the first round had done, so as to do something else, and was
-pushed towards multi-step and cross-feature conditions). An agent got only the text of one property and a scratch
+pushed towards multi-step and cross-feature conditions; e, f: third round, told about both earlier rounds and pushed
+towards changes in *other* modules than the obvious one - codecs, `config.py` identity and matching helpers, the send
+path, session storage - and towards effects that need state accumulated over a long history). An agent got only the text of one property and a scratch
 worktree of `/repo` - nothing from `/verif`. Each change comes with `patch.diff`, a demonstration `demo.py` (passes on the
 unchanged tree, fails with the patch) and `meta.json`. `tools/try_seeded.py` re-confirmed all of that in a scratch
 worktree (demo both ways, unedited test suite green with the patch) and then ran the property's quick check against the
@@ -59,7 +61,10 @@ What the misses had in common: the oracle could already see the violation; the *
 (two requesters - or one requester twice - inside one collection window before a stop; endpoint options in another
 order; the other fields' wildcard values used as concrete ids; a destination first contacted after another one wrapped;
 two destinations on one host; a method registered after its id was refused; 65 535 notifications to one destination;
-connection loss of one transport only; a listener rejection before an acceptance; non-cyclic instances; two instances
+connection loss of one transport only; a listener rejection before an acceptance; non-cyclic instances; ids that differ
+in the minor version only; two SD ports on one host; TTL values built at run time and 194 days of virtual time; option
+runs that match the tail of the option array; SD endpoint options on Subscribes; one eventgroup on two local endpoints;
+stop and start in one loop iteration; a non-cyclic offerer with infinite TTLs; two instances
 sharing service and instance id; a lost StopOffer followed by a restart within the TTL; empty event values; messages
 with the unicast flag clear; peer restarts during the session-id soak; one endpoint in two eventgroups; type bytes
 with the TP bit). Each is now generated on purpose and most are reported as probes in the evidence.
